@@ -1494,16 +1494,18 @@ func TestVerifC06Ctrl(t *testing.T) {
 }
 
 func TestVerifC07Ctrl(t *testing.T) {
-	vw.Run(t, vw.Options{Property: "C07", Engine: "controller", Rule: ctrlRule + "; at every quiescence an independent search over the CRs and the recorded statuses decides whether a pending service has an admissible assignment; non-trivial = a service was pending at quiescence", Assumptions: ctrlAssumptions},
-		func(rt *rapid.T) ctrlCase { return genCtrlCase(rt, ctrlGenOpts{Sched: true}) },
+	vw.Run(t, vw.Options{Property: "C07", Engine: "controller", Rule: ctrlRule + "; at every quiescence an independent search over the CRs and the recorded statuses decides whether a pending service has an admissible assignment; finite sequences of failing status writes and reads are part of the histories; non-trivial = a service was pending at quiescence", Assumptions: ctrlAssumptions},
+		func(rt *rapid.T) ctrlCase { return genCtrlCase(rt, ctrlGenOpts{Sched: true, Faults: true}) },
 		func(c ctrlCase, tr *vw.Trace) *vw.Violation { return runCtrl(c, tr, judgeSet{C07: true}) })
 }
 
 func TestVerifC11Ctrl(t *testing.T) {
-	vw.Run(t, vw.Options{Property: "C11", Engine: "controller", Rule: ctrlRule + "; at every quiescence the allocator's memory and per-pool counters must equal what the statuses record, for every service that ever existed; non-trivial = an address was released (delete / pool edit) and the run reached quiescence afterwards", Assumptions: ctrlAssumptions},
+	vw.Run(t, vw.Options{Property: "C11", Engine: "controller", Rule: ctrlRule + "; at every quiescence the allocator's memory and per-pool counters must equal what the statuses record, for every service that ever existed, and no service may be pending while an independent search finds an admissible assignment for it (a given-up address is available to others); non-trivial = an address was released (delete / pool edit) and the run reached quiescence afterwards", Assumptions: ctrlAssumptions},
 		func(rt *rapid.T) ctrlCase { return genCtrlCase(rt, ctrlGenOpts{Sched: true, Faults: true}) },
 		func(c ctrlCase, tr *vw.Trace) *vw.Violation {
-			v := runCtrl(c, tr, judgeSet{C11: true})
+			// C07's search doubles as "a given-up address is available to others": no service may stay pending at
+			// quiescence while an admissible assignment exists
+			v := runCtrl(c, tr, judgeSet{C11: true, C07: true})
 			if tr.Has("release-by-delete") || tr.Has("pool-edit") {
 				tr.NonTrivial()
 			}
